@@ -10,6 +10,14 @@ ASSUMPTIONS = ["the expected comment list is the one the layout engine wrote (to
 
 
 def run(chk):
+    progs_i, li = interaction_stream(chk)
+    sc_i = scan_comments(li, list(li))
+    for t_, l_ in li.items():
+        k_, v_ = outcome(l_)
+        if k_ != 'ok' or sc_i.get(t_) is None: continue
+        got_ = [(c['pos'], c['text']) for c in v_['comments']]
+        if got_ != sc_i[t_]:
+            chk.oracle_fail('comments-vs-scan', 'file', t_, got_[:8], sc_i[t_][:8], 'File::comments is not the list of comment tokens of the source (offset, text, order, each once)')
     rng = random.Random(chk.seed)
     n = 700 if chk.tier == 'quick' else 12000
     k = 3 if chk.tier == 'quick' else 6
